@@ -129,6 +129,7 @@ const prelude = `(set-option :produce-models true)
 (declare-fun slen (Str) (_ BitVec 64))
 (declare-fun sarr (Str) (Array (_ BitVec 64) (_ BitVec 8)))
 (define-fun streq ((a Str) (b Str)) Bool (= a b))
+(assert (forall ((s Str)) (! (bvule (slen s) #x0000010000000000) :pattern ((slen s)))))
 (declare-fun at ((_ BitVec 64) (_ BitVec 64)) (_ BitVec 64))
 (assert (forall ((o (_ BitVec 64)) (i (_ BitVec 64))) (! (= (at o i) (bvadd o i)) :pattern ((at o i)))))
 `
